@@ -416,7 +416,7 @@ func runC19(c *explore.Ctx) {
 	keySizes := []uint32{0, 1, 255, 256, 32767, 65535}
 	valSizes := []uint32{0, 1, 1 << 8, 1 << 12, 1 << 16, 1 << 20, 1 << 24, 1 << 28, 1 << 30, 1<<31 - 1}
 	good := refmodel.EncodeRecord([]byte("zz"), []byte("never-written"), false)
-	follow := map[string][]byte{"none": nil, "zero3": make([]byte, 3), "zero4": make([]byte, 4), "zero1000": make([]byte, 1000), "ff1000": bytes.Repeat([]byte{0xff}, 1000), "valid-records": append(append([]byte(nil), good...), good...)}
+	follow := map[string][]byte{"none": nil, "zero1": make([]byte, 1), "zero2": make([]byte, 2), "zero3": make([]byte, 3), "zero4": make([]byte, 4), "ff5": bytes.Repeat([]byte{0xff}, 5), "ff9": bytes.Repeat([]byte{0xff}, 9), "zero1000": make([]byte, 1000), "ff1000": bytes.Repeat([]byte{0xff}, 1000), "valid-records": append(append([]byte(nil), good...), good...)}
 	var fnames []string
 	for n := range follow {
 		fnames = append(fnames, n)
